@@ -16,6 +16,7 @@ LEVEL = "exploration"
 CONTRACTS = True  # icontract postconditions on AlignedStream.read/peek/seek fire during this workload too
 STEP_BUDGET = 30_000_000
 HANDLE_CLOSE_CHECK = True
+OPEN_INTERPOSE = True  # files the library opens by path (parents, extents) are wrapped in observing proxies
 ANCHOR_FILES = [f"dissect/hypervisor/disk/{m}.py" for m in ("vhdx", "vmdk", "hdd", "qcow2", "vdi")]
 RULE = (
     "Chains of depth 1..4 built from layered content models on real temp directories: VHDX differencing (partially "
@@ -143,9 +144,13 @@ def run(case: dict, ctx) -> dict:
         for _ in range(4):
             reqs.append((max(0, h_ + rng.randrange(-70000, (1 << 20))), rng.randrange(1, 150000)))
     cnt["vhdx_beyond_first_chunk_cases"] = int(bool(hot))
-    fault_retry_reads(s, model, reqs, rng, res, MECH, n=3)  # cold caches
+    # small requests at sector granularity all over the disk: in layered images each of them needs its own per-block /
+    # per-chunk metadata (sector bitmaps, grain tables of the layer and of its ancestors), which is what a fault should hit
+    size_ = model.size
+    small = [(rng.randrange(0, max(size_ - 4096, 1)) // 512 * 512, rng.choice([512, 1024, 4096])) for _ in range(40)] if size_ > 8192 else reqs
+    fault_retry_reads(s, model, small, rng, res, MECH, n=8)  # cold caches
     continuation_reads(s, model, reqs, rng, res, MECH)
-    fault_retry_reads(s, model, reqs, rng, res, MECH)
+    fault_retry_reads(s, model, small, rng, res, MECH, n=8)
     compare_reads(s, model, reqs, res, MECH, byte_cap=(24 << 20))
     _layer_hits(model, reqs, res)
     if op.read_sectors is not None and not res["viol"]:
